@@ -234,7 +234,7 @@ func handleInsertStatement(query, pattern sqlparser.Statement) bool {
 	if !match {
 		return false
 	}
-	return false
+	return true
 }
 func handleUpdateStatement(query, pattern sqlparser.Statement) bool {
 	var match bool
